@@ -720,6 +720,8 @@ class Explorer:
         self.n_aborted = 0
         self.n_decisions = 0
         self.n_queries = 0
+        self.n_retries = 0
+        self._m = None
         self.n_obligations = 0
         self.n_discharged = 0
         self.solver_time = 0.0
@@ -759,10 +761,28 @@ class Explorer:
         return SymBool(self._declare(name, z3.Bool))
 
     # ---- solver plumbing
-    def _check(self, *extra):
+    def _check(self):
+        """check() on the incremental solver; on ``unknown`` retry on fresh (non-incremental)
+        solvers with other seeds and longer time-outs.  The model of a ``sat`` answer is left in
+        ``self._m``."""
         t0 = time.time()
         self.n_queries += 1
-        r = self.solver.check(*extra)
+        r = self.solver.check()
+        if r == z3.sat:
+            self._m = self.solver.model()
+        elif r == z3.unknown:
+            asserts = self.solver.assertions()
+            for k, to in enumerate((4000, 15000, self.query_timeout_ms, 3 * self.query_timeout_ms)):
+                s2 = z3.Solver()
+                s2.set('timeout', to)
+                s2.set('random_seed', 17 * k + 3)
+                s2.add(asserts)
+                self.n_retries += 1
+                r = s2.check()
+                if r == z3.sat:
+                    self._m = s2.model()
+                if r != z3.unknown:
+                    break
         self.solver_time += time.time() - t0
         if self.deadline is not None and time.time() > self.deadline:
             self.inconclusive.append("deadline exceeded")
@@ -782,7 +802,7 @@ class Explorer:
     def _refresh_model(self):
         r = self._check()
         if r == z3.sat:
-            self.model = self.solver.model()
+            self.model = self._m
             return True
         if r == z3.unsat:
             return False
@@ -835,14 +855,14 @@ class Explorer:
         self.solver.add(other)
         r = self._check()
         if r == z3.sat:
-            om = self.solver.model()
+            om = self._m
             self.solver.pop()
             self._schedule(self.trace + [('b', not mv)], om)
         elif r == z3.unsat:
             self.solver.pop()
         else:
             self.solver.pop()
-            self.inconclusive.append("solver returned unknown on a branch condition")
+            self.inconclusive.append("solver returned unknown (%s) on a branch condition: %s" % (self.solver.reason_unknown(), str(t)[:300]))
             raise Inconclusive("unknown")
         self.solver.add(t if mv else z3.Not(t))
         self.trace.append(('b', mv))
@@ -880,7 +900,7 @@ class Explorer:
             self.solver.add(t != v)
             r = self._check()
             if r == z3.sat:
-                om = self.solver.model()
+                om = self._m
                 self.solver.pop()
                 self._schedule(self.trace + [('v', (v, False))], om)
             elif r == z3.unsat:
@@ -946,7 +966,7 @@ class Explorer:
             self.n_discharged += 1
             return True
         if r == z3.sat:
-            m = self.solver.model()
+            m = self._m
             vals = model_values(m, self.vars)
             self.solver.pop()
             self._violation(label, vals, detail)
@@ -995,7 +1015,7 @@ class Explorer:
                     break
                 prefix, model = self.worklist.pop(0) if split_at is not None else self.worklist.pop()
                 self.solver = z3.Solver()
-                self.solver.set('timeout', self.query_timeout_ms)
+                self.solver.set('timeout', min(3000, self.query_timeout_ms))
                 self.solver.set('random_seed', self.seed % 1000)
                 self.prefix = prefix
                 self._pending_model = model
@@ -1051,7 +1071,7 @@ class Explorer:
             self.n_discharged += len(sym)
             return ok
         if r == z3.sat:
-            m = self.solver.model()
+            m = self._m
             vals = model_values(m, self.vars)
             bad = None
             for t, label in sym:
